@@ -1775,7 +1775,17 @@ def float_prev(flt):
     flt = float_list[i-1]
     return flt
 
+def float_popped_result(dst, value):
+    # the result of a popping instruction is written to st(i), which the pop
+    # renames st(i-1); written to st(0), it is popped at once
+    if dst == float_st0:
+        return []
+    return [ExprAff(float_prev(dst), value)]
+
 def float_pop(avoid_flt = None, src = None):
+    if avoid_flt == float_st0:
+        # nothing survives in st(0): it receives st(1) like after any pop
+        avoid_flt = None
     avoid_flt = float_prev(avoid_flt)
     e= []
     if avoid_flt != float_st0:
@@ -2035,7 +2045,7 @@ def faddp(info, a, b = None):
         src = ExprOp('mem_%.2d_to_double'%b.get_size(), b)
     else:
         src = b
-    e.append(ExprAff(float_prev(dst), ExprOp('fadd', a, src)))
+    e += float_popped_result(dst, ExprOp('fadd', a, src))
     e += set_float_cs_eip(info)
     e += float_pop(dst)
     return e
@@ -2173,7 +2183,7 @@ def fdivp(info, a, b = None):
         src = ExprOp('mem_%.2d_to_double'%b.get_size(), b)
     else:
         src = b
-    e.append(ExprAff(float_prev(dst), ExprOp('fdiv', a, src)))
+    e += float_popped_result(dst, ExprOp('fdiv', a, src))
     e += set_float_cs_eip(info)
     e += float_pop(dst)
     return e
@@ -2191,7 +2201,7 @@ def fdivrp(info, a, b = None):
         src = ExprOp('mem_%.2d_to_double'%b.get_size(), b)
     else:
         src = b
-    e.append(ExprAff(float_prev(dst), ExprOp('fdiv', src, a)))
+    e += float_popped_result(dst, ExprOp('fdiv', src, a))
     e += set_float_cs_eip(info)
     e += float_pop(dst)
     return e
@@ -2209,7 +2219,7 @@ def fmulp(info, a, b = None):
         src = ExprOp('mem_%.2d_to_double'%b.get_size(), b)
     else:
         src = b
-    e.append(ExprAff(float_prev(dst), ExprOp('fmul', a, src)))
+    e += float_popped_result(dst, ExprOp('fmul', a, src))
     e += set_float_cs_eip(info)
     e += float_pop(dst)
     return e
@@ -2227,7 +2237,7 @@ def fsubp(info, a, b = None):
         src = ExprOp('mem_%.2d_to_double'%b.get_size(), b)
     else:
         src = b
-    e.append(ExprAff(float_prev(dst), ExprOp('fsub', a, src)))
+    e += float_popped_result(dst, ExprOp('fsub', a, src))
     e += set_float_cs_eip(info)
     e += float_pop(dst)
     return e
@@ -2245,7 +2255,7 @@ def fsubrp(info, a, b = None):
         src = ExprOp('mem_%.2d_to_double'%b.get_size(), b)
     else:
         src = b
-    e.append(ExprAff(float_prev(dst), ExprOp('fsub', src, a)))
+    e += float_popped_result(dst, ExprOp('fsub', src, a))
     e += set_float_cs_eip(info)
     e += float_pop(dst)
     return e
@@ -2323,8 +2333,10 @@ def fxch(info, a):
         src = ExprOp('mem_%.2d_to_double'%a.get_size(), a)
     else:
         src = a
-    e.append(ExprAff(float_st0, src))
-    e.append(ExprAff(src, float_st0))
+    if src != float_st0:
+        # (fxch st(0) exchanges nothing)
+        e.append(ExprAff(float_st0, src))
+        e.append(ExprAff(src, float_st0))
     e += set_float_cs_eip(info)
     return e
 
